@@ -6,6 +6,7 @@ use chrono_mc::core::*;
 use chrono_mc::lattice::*;
 use chrono_mc::refcal::*;
 use chrono_mc::reftz::*;
+use chrono_mc::zonegen::*;
 use serde_json::json;
 use std::time::Instant;
 
@@ -140,117 +141,6 @@ fn judge_zone(acc: &mut Acc, name: &dyn Fn() -> String, vz: &VerifZone, z: &RefZ
             }
         }
     }
-}
-
-fn ty(off: i32, dst: bool) -> RefType {
-    RefType { off, dst, abbr: if dst { "DST".into() } else { "STD".into() } }
-}
-
-/// bounded zone models: k transitions, types from a palette, spacings from a set
-fn synthetic_zones(code: u64, tier: Tier) -> Option<(RefZone, u8, V1Block, bool)> {
-    // code enumerates: k (0..=3) | type palette indices (k+1 of them) | spacing indices (k-1) | footer variant | version/layout
-    let palette: Vec<RefType> = {
-        let mut p = vec![];
-        for off in [-7200, -3600, 0, 1800, 3600, 7200] {
-            p.push(ty(off, false));
-            p.push(ty(off, true));
-        }
-        p.push(RefType { off: 3600, dst: false, abbr: "ALT".into() });
-        p
-    };
-    let spacings: [i64; 6] = [1, 3599, 3600, 7200, 86400, 30 * 86400];
-    let np = palette.len() as u64; // 13
-    let mut c = code;
-    let mut take = |n: u64| {
-        let r = c % n;
-        c /= n;
-        r
-    };
-    let k = take(4) as usize;
-    let layout = take(6); // v1 | v2 fat | v2 slim | v3 fat | v3 slim+indicators | v2 fat+indicators
-    let footer = take(3); // none | fixed = last type | alternate rule (when consistent)
-    let mut types_idx = vec![];
-    for _ in 0..=k {
-        types_idx.push(take(np) as usize);
-    }
-    let mut gaps = vec![];
-    for _ in 1..k.max(1) {
-        gaps.push(spacings[take(6) as usize]);
-    }
-    if c != 0 {
-        return None; // beyond the enumeration
-    }
-    if tier == Tier::Quick && k == 3 && (types_idx[3] % 3 != 0 || gaps.iter().any(|g| *g == 7200)) {
-        return None; // quick tier thins the largest class
-    }
-    let t0 = days_from_civil(2000, 1, 15) * 86400;
-    let mut trans = vec![];
-    let mut types: Vec<RefType> = vec![];
-    let mut idx_of = |t: &RefType, types: &mut Vec<RefType>| -> usize {
-        if let Some(i) = types.iter().position(|x| x == t) {
-            i
-        } else {
-            types.push(t.clone());
-            types.len() - 1
-        }
-    };
-    let first = palette[types_idx[0]].clone();
-    idx_of(&first, &mut types);
-    let mut t = t0;
-    for i in 1..=k {
-        if i > 1 {
-            t += gaps[i - 2];
-        }
-        let ti = idx_of(&palette[types_idx[i]], &mut types);
-        trans.push((t, ti));
-    }
-    let last_ty = trans.last().map(|x| types[x.1].clone()).unwrap_or(first.clone());
-    let (version, v1, ind) = match layout {
-        0 => (1u8, V1Block::Fat, false),
-        1 => (2, V1Block::Fat, false),
-        2 => (2, V1Block::Slim, false),
-        3 => (3, V1Block::Fat, false),
-        4 => (3, V1Block::Slim, true),
-        _ => (2, V1Block::Fat, true),
-    };
-    let rule = match footer {
-        0 => None,
-        1 => {
-            if version == 1 || !last_ty.abbr.bytes().all(|c| c.is_ascii_alphabetic()) {
-                return None;
-            }
-            Some(RefRule { std: RefType { off: last_ty.off, dst: false, abbr: last_ty.abbr.clone() }, dst: None })
-        }
-        _ => {
-            if version == 1 {
-                return None;
-            }
-            // northern rule: standard time in January; southern rule: DST in January
-            let north = RefRule { std: ty(0, false), dst: Some(RefDst { ty: ty(3600, true), start: RuleDay::M { m: 3, w: 2, d: 0 }, start_time: 7200, end: RuleDay::M { m: 11, w: 1, d: 0 }, end_time: 7200 }) };
-            let south = RefRule { std: ty(-3600, false), dst: Some(RefDst { ty: ty(0, true), start: RuleDay::M { m: 10, w: 1, d: 0 }, start_time: 7200, end: RuleDay::M { m: 3, w: 3, d: 0 }, end_time: 10800 }) };
-            // the footer must agree with the last transition's type at that instant
-            let at = trans.last().map(|x| x.0).unwrap_or(t0);
-            let in_effect = |r: &RefRule| {
-                let d = r.dst.as_ref().unwrap();
-                if r.offset_at(at) == d.ty.off { d.ty.clone() } else { r.std.clone() }
-            };
-            if in_effect(&north) == last_ty {
-                Some(north)
-            } else if in_effect(&south) == last_ty {
-                Some(south)
-            } else {
-                return None;
-            }
-        }
-    };
-    if footer == 1 && last_ty.dst {
-        return None; // a fixed rule is standard time
-    }
-    Some((RefZone { trans, types, rule }, version, v1, ind))
-}
-
-fn synthetic_space() -> u64 {
-    4 * 6 * 3 * 13u64.pow(4) * 36
 }
 
 struct RuleSpec {
